@@ -42,6 +42,7 @@ func (u unsupported) Error() string { return u.msg }
 func fail(format string, a ...interface{}) { panic(unsupported{fmt.Sprintf(format, a...)}) }
 
 type Exec struct {
+	appendSum map[*ssa.Function]map[int]bool // per library function: the slice parameters it appends to (lazily computed)
 	prog  *ssa.Program
 	U     *Universe
 	TI    *TypeInfo
